@@ -200,6 +200,20 @@ class FOn(Schema):
     d: int = Field(ge=0, default=7, on_error='exclude')
 
 
+class FMode(Schema):
+    __options__ = Options(invalid_values='exclude', mode='w')
+    r: int = Field(ge=0, required='w')
+    o: int = Field(ge=0, required=False)
+    d: int = Field(ge=0, default=7)
+
+
+class FModeR(Schema):
+    __options__ = Options(invalid_values='exclude', mode='r')
+    r: int = Field(ge=0, required='w')
+    o: int = Field(ge=0, required=False)
+    d: int = Field(ge=0, default=7)
+
+
 class FAdd(Schema):
     __options__ = Options(addition=int, invalid_values='exclude')
     r: int = 0
@@ -228,12 +242,13 @@ def conv_ge0(v):
 
 
 @ob('fields', marks=['offender', 'clean', 'required-offender'], budget=(60, 200),
-    bounds='Schemas with Options(invalid_values=exclude) / per-field on_error (preserve, exclude): fields r (required), '
+    bounds='Schemas with Options(invalid_values=exclude) / per-field on_error (preserve, exclude) / r required only in mode w (class in mode w and in mode r): fields r (required), '
            'o (optional), d (default 7), all int ge 0; each value absent | solver int -3..3 | "x" | "5"',
     out='non-int fields')
 def fields(V):
-    which = V.pick('cls', ['options-exclude', 'field-on_error'])
-    cls = FReq if which == 'options-exclude' else FOn
+    which = V.pick('cls', ['options-exclude', 'field-on_error', 'required-in-mode', 'required-in-other-mode'])
+    cls = {'options-exclude': FReq, 'field-on_error': FOn, 'required-in-mode': FMode, 'required-in-other-mode': FModeR}[which]
+    r_required = cls is not FModeR
     data = {}
     for n in ('r', 'o', 'd'):
         v, has = _val(V, n)
@@ -245,7 +260,7 @@ def fields(V):
     want = {}
     fail = False
     offender = False
-    pol = {'r': 'exclude' if cls is FReq else 'preserve', 'o': 'exclude', 'd': 'exclude'}
+    pol = {'r': 'preserve' if cls is FOn else 'exclude', 'o': 'exclude', 'd': 'exclude'}
     for n in ('r', 'o', 'd'):
         if n in data:
             c = conv_ge0(data[n])
@@ -256,13 +271,13 @@ def fields(V):
             if pol[n] == 'preserve':
                 want[n] = data[n]
                 continue
-            if n == 'r':
+            if n == 'r' and r_required:
                 fail = True          # a required field is never silently excluded
                 V.cover('required-offender')
             elif n == 'd':
                 want[n] = 7
         else:
-            if n == 'r':
+            if n == 'r' and r_required:
                 fail = True
             elif n == 'd':
                 want[n] = 7
